@@ -22,7 +22,9 @@ PID = "C09"
 RULE = (
     "matmul: dims (m,n,k) each with (outer, inner) from {(1,4),(1,8),(2,8),(3,8),(2,4)} (operand shape = outer*inner), all 6 orders of the outer loops, element width "
     "vectors (8,8,32),(16,16,32),(8,8,8),(32,32,32),(64,64,64); conv-like (k + 4*o_outer + o_inner) with k in 1..3; elementwise 1-D and 2-D (row and "
-    "transposed access) on the ALU template; operands with a pre-existing TSL; operands with one or two dimensions (sizes 1..3, every position) the schedule never indexes; x tiled in {true,false}. distinct = distinct (schedule, chosen layouts); "
+    "transposed access) on the ALU template; operands with a pre-existing TSL; operands with one or two dimensions (sizes 1..3, every position) the schedule never indexes; x tiled in {true,false}; "
+    "tiles of an uninitialised global: tile shapes {2x3,4x6,8x12,1x4,4x1} x 5-7 tile layouts (dense, padded rows, column-major, two-level with gaps) x global = 1..3 x 1..3 tiles x every tile position x i8/i32 -> "
+    "realize-memref-casts; the layout chosen for the whole global must be injective, cover the global and agree with the tile layout inside every tile. distinct = distinct (schedule, chosen layouts); "
     "non-trivial = some chosen layout is not plain row-major"
 )
 ASSUMPTIONS = ["layout semantics: machines/layout.py (addr = sum step*digit)", "the operand shape is exactly covered by the schedule's accesses except for the conv-like family (halo)"]
@@ -122,7 +124,107 @@ def space(tier):
                 for w in (8, 64):
                     for tiled in (True, False):
                         cases.append(("unacc2", sizes, pos, which, w, tiled))
+    # the operand is a tile (subview) of an uninitialised global: realize-memref-casts extends the tile's (possibly padded) layout to the whole global
+    for ti, (R, C) in enumerate(GLOB_TILES if tier == "quick" else GLOB_TILES + [(3, 5), (6, 4)]):
+        for li in range(len(glob_layouts(R, C))):
+            for mult in itertools.product((1, 2, 3), repeat=2):
+                for w in (8, 32):
+                    cases.append(("glob", (R, C), li, mult, w))
     return cases
+
+
+GLOB_TILES = [(2, 3), (4, 6), (8, 12), (1, 4), (4, 1)]
+
+
+def glob_layouts(R, C):
+    """tile layouts as set-memory-layout produces them: dense, padded rows (access granularity), column-major, two-level tiles with gaps"""
+    P8 = -(-C // 8) * 8
+    out = [
+        [[(R, C)], [(C, 1)]],
+        [[(R, C + 1)], [(C, 1)]],
+        [[(R, P8 if P8 != C else C + 8)], [(C, 1)]],
+        [[(R, 1)], [(C, R)]],
+        [[(R, 1)], [(C, R + 2)]],
+    ]
+    if R % 2 == 0 and R > 2:
+        out.append([[(R // 2, 2 * P8 + 3), (2, P8)], [(C, 1)]])
+    if C % 2 == 0 and C > 2:
+        out.append([[(R, C // 2 * 2 + 1)], [(C // 2, 2 * R * (C + 1)), (2, 1)]])
+    return out
+
+
+def _tsl(dims):
+    return "#tsl.tsl<" + ", ".join("[" + ", ".join(str(b) for b, _ in d) + "] -> (" + ", ".join(str(s_) for _, s_ in d) + ")" for d in dims) + ">"
+
+
+def eval_glob(case) -> CaseResult:
+    _, (R, C), li, (ma, mb), w = case
+    r = CaseResult()
+    dims = glob_layouts(R, C)[li]
+    el = EL[w]
+    GR, GC = R * ma, C * mb
+    key = f"{case!r}"
+    gt = f"memref<{GR}x{GC}x{el}>"
+    lay = _tsl(dims)
+    lines = []
+    tiles = [(a, b) for a in range(ma) for b in range(mb)]
+    # one get_global + one subview (the pattern requires a single use): the tile position is part of the case enumeration below
+    r.obs = (case,)
+    r.sample = dict(case=repr(case), tile_layout=lay, global_shape=[GR, GC])
+    got_layouts = []
+    for (ta, tb) in tiles:
+        off = ta * R * GC + tb * C
+        st = f"memref<{R}x{C}x{el}, strided<[{GC}, 1], offset: {off}>>"
+        text = (
+            f'builtin.module {{\n  "memref.global"() <{{alignment = 64 : i64, initial_value, sym_name = "g", sym_visibility = "private", type = {gt}}}> : () -> ()\n'
+            f"func.func @f() {{\n  %g = memref.get_global @g : {gt}\n  %a = memref.subview %g[{ta * R}, {tb * C}] [{R}, {C}] [1, 1] : {gt} to {st}\n"
+            f'  %l = "snax.layout_cast"(%a) : ({st}) -> memref<{R}x{C}x{el}, {lay}>\n  "test.op"(%l) : (memref<{R}x{C}x{el}, {lay}>) -> ()\n  func.return\n}}\n}}\n'
+        )
+        case_j = dict(case=case, program=text)
+        try:
+            mod = common.compile_text(text, "realize-memref-casts")
+        except common.Rejected as e:
+            r.rejected = e.kind
+            r.count("glob_rejected:" + str(e)[:60])
+            return r
+        gg = [op for op in mod.walk() if op.name == "memref.get_global"]
+        sv = [op for op in mod.walk() if op.name == "memref.subview"]
+        if len(gg) != 1 or len(sv) != 1 or not hasattr(gg[0].results[0].type.layout, "data"):
+            r.count("glob_not_extended")
+            continue
+        r.validated += 1
+        gty = gg[0].results[0].type
+        G = [[(s_.bound, s_.step) for s_ in ts.strides] for ts in gty.layout.data.tstrides]
+        goff = gty.layout.data.offset or 0
+        got_layouts.append(str(gty.layout.data))
+        r.transitions += 1
+        if any(b is None or s_ is None for d in G for (b, s_) in d):
+            r.violate(key + "|dynamic", case_j, f"layout {gty.layout.data} chosen for the static global {gt} has dynamic entries")
+            return r
+        if ref.shape(G) != [GR, GC]:
+            r.violate(key + "|cover", case_j, f"layout {gty.layout.data} chosen for the global covers {ref.shape(G)}, the global is {GR}x{GC}; tile layout {lay}")
+            return r
+        seen = {}
+        for idx in ref.box([GR, GC]):
+            a = ref.addr(G, idx) + goff
+            if a in seen:
+                r.violate(key + "|alias", case_j, f"layout {gty.layout.data} chosen for the global {gt} maps elements {seen[a]} and {idx} to the same address {a}; tile layout {lay}")
+                return r
+            seen[a] = idx
+        r.states += len(seen)
+        # the tile view promises the requested tile layout from its own base pointer: element idx of the tile must sit at base + tile(idx)
+        vty = sv[0].results[0].type
+        if not hasattr(vty.layout, "data") or [[(s_.bound, s_.step) for s_ in ts.strides] for ts in vty.layout.data.tstrides] != dims:
+            r.violate(key + "|view", case_j, f"the tile view has type {vty}, the consumer was promised layout {lay}")
+            return r
+        base = ref.addr(G, [ta * R, tb * C])
+        for idx in ref.box([R, C]):
+            if ref.addr(G, [ta * R + idx[0], tb * C + idx[1]]) - base != ref.addr(dims, idx):
+                r.violate(key + "|tile", case_j, f"tile ({ta}, {tb}) element {idx}: the global's layout {gty.layout.data} puts it at base+{ref.addr(G, [ta * R + idx[0], tb * C + idx[1]]) - base}, the tile layout {lay} at base+{ref.addr(dims, idx)}")
+                return r
+    r.obs = (case, tuple(got_layouts))
+    r.nontrivial = bool(got_layouts) and li > 0
+    return r
 
 
 def build(case):
@@ -205,6 +307,8 @@ def build(case):
 
 
 def evaluate(case) -> CaseResult:
+    if case[0] == "glob":
+        return eval_glob(case)
     r = CaseResult()
     acc, shapes, widths, mats, bounds, nin, tiled, pre = build(case)
     decl_acc = common.ctx().get_acc(acc)
